@@ -33,8 +33,39 @@ def replay(blob):
     out['violations'] = h.violations[:20]
     out['reproduced'] = bool(h.violations)
     out['checked'] = h.checked
+    if blob.get('want_observed'):
+        out['observed'] = observed_values(h)
     return out
 
+
+def observed_values(h):
+    """[(label, [floats])] of the left operands of every h.eq executed (translator validation)"""
+    import numpy as np
+    res = []
+    for label, A in h.observed:
+        vals = []
+        for x in np.asarray(A, dtype=object).ravel():
+            v = getattr(x, 'val', x)
+            try:
+                vals.append(float(v))
+            except Exception:  # noqa: BLE001
+                vals.append(None)
+        res.append((label, vals))
+    return res
+
+
+if __name__ == '__main__' and sys.argv[1] == '--batch':
+    # translator validation: many (claim, inputs) pairs natively in one interpreter
+    with open(sys.argv[2]) as f:
+        blobs = json.load(f)
+    outs = []
+    for b in blobs:
+        try:
+            outs.append(replay(b))
+        except Exception as e:  # noqa: BLE001
+            outs.append(dict(status='harness-error', error=f'{type(e).__name__}: {e}'))
+    print('BATCH-RESULT ' + json.dumps(outs, default=str))
+    sys.exit(0)
 
 if __name__ == '__main__':
     with open(sys.argv[1]) as f:
